@@ -1,5 +1,5 @@
 """Feeds emitted functions to Asm.tla (assembler oracle): C04 sizes, C13 legality/labels, C03 ranges."""
-import json, os
+import json, os, re
 from . import common, link
 
 
@@ -34,6 +34,38 @@ def func_records(cid, variant, obs, scheme="4K"):
             lines.append(rec)
         out.append(dict(id="%s/%s/%s" % (cid, variant, f["name"]), fn=f["name"], size=f["size"], globals=globs, lines=lines))
     return out
+
+
+def text_mismatch(f):
+    """The text AssemblyCode::write hands to the assembler (plain and with cycle annotations) must spell exactly the lines the
+    structured view (hook H1) shows: same labels, mnemonics, operands, inline assembly, in order.  -> None or a description"""
+    want = []
+    for l in f.get("lines") or []:
+        if l["k"] == "i":
+            want.append(("i", (l["mn"] + " " + (l.get("op") or "")).strip()))
+        elif l["k"] == "l":
+            want.append(("l", l["name"]))
+        elif l["k"] == "a":
+            want.append(("i", " ".join(l["text"].split())))
+    for key in ("text_plain", "text_cycles"):
+        if key not in f:
+            continue
+        got = []
+        for ln in f[key].split("\n"):
+            if not ln.strip() or ln.startswith(";"):
+                continue
+            if ln[0] in " \t":
+                t = ln
+                if key == "text_cycles":
+                    t = re.sub(r"\t; \d+(/\d+)?$", "", t)
+                got.append(("i", " ".join(t.split())))
+            else:
+                got.append(("l", ln.strip()))
+        if got != want:
+            for i, (a, b) in enumerate(zip(got + [None] * len(want), want + [None] * len(got))):
+                if a != b:
+                    return "%s line %d: written %r, generated %r" % (key, i + 1, a, b)
+    return None
 
 
 def run(records, name, chunk=12000):
